@@ -11,13 +11,19 @@ use serde_json::Value;
 use serde_json::json;
 
 struct ScriptedLoader {
+  x: &'static str,
+  /// None: the version manifest is not served; Some(json): served
+  version_meta: Option<String>,
   answers: Vec<String>,
   calls: RefCell<Vec<Value>>,
   max_redirects: usize,
 }
 
-const X: &str = "https://h/x.ts";
+const PLAIN_X: &str = "https://h/x.ts";
+const REG_X: &str = "https://jsr.io/@a/b/1.0.0/mod.ts";
 const Y: &str = "https://h/y.ts";
+const PKG_META: &str = "https://jsr.io/@a/b/meta.json";
+const VER_META: &str = "https://jsr.io/@a/b/1.0.0_meta.json";
 
 impl ScriptedLoader {
   fn note(&self, entry: &str, options: &LoadOptions) -> usize {
@@ -38,7 +44,14 @@ impl Loader for ScriptedLoader {
   fn max_redirects(&self) -> usize { self.max_redirects }
   fn load(&self, specifier: &ModuleSpecifier, options: LoadOptions) -> LoadFuture {
     let s = specifier.as_str().to_string();
-    if s != X {
+    if s == PKG_META || s == VER_META {
+      let body = if s == PKG_META { Some(r#"{"versions":{"1.0.0":{}}}"#.to_string()) } else { self.version_meta.clone() };
+      let specifier = specifier.clone();
+      return async move {
+        Ok(body.map(|b| LoadResponse::Module { content: Arc::from(b.into_bytes()), mtime: None, specifier, maybe_headers: None }))
+      }.boxed_local();
+    }
+    if s != self.x {
       // the root and the redirect target are always served
       let specifier = specifier.clone();
       return async move { Ok(Some(LoadResponse::Module { content: Arc::from(Vec::<u8>::new()), mtime: None, specifier, maybe_headers: None })) }.boxed_local();
@@ -55,7 +68,7 @@ impl Loader for ScriptedLoader {
     async move { r }.boxed_local()
   }
   fn ensure_cached(&self, specifier: &ModuleSpecifier, options: LoadOptions) -> EnsureCachedFuture {
-    if specifier.as_str() != X {
+    if specifier.as_str() != self.x {
       return async move { Ok(Some(CacheResponse::Cached)) }.boxed_local();
     }
     let i = self.note("ensure_cached", &options);
@@ -70,13 +83,31 @@ impl Loader for ScriptedLoader {
   }
 }
 
+/// Runs spawned background tasks inline (the default executor needs a tokio runtime).
+struct InlineExecutor;
+impl deno_graph::Executor for InlineExecutor {
+  fn execute(&self, fut: std::pin::Pin<Box<dyn std::future::Future<Output = ()> + 'static>>) -> std::pin::Pin<Box<dyn std::future::Future<Output = ()> + 'static>> { fut }
+}
+
 pub fn run_op(op: &Value) -> Value {
   let asset = op["asset"].as_bool().unwrap();
   let attrs = if asset {
     ImportAttributes::Known(HashMap::from([("type".to_string(), ImportAttribute::Known("text".to_string()))]))
   } else { ImportAttributes::None };
+  // route: "plain" (an ordinary https module), "registry_url" (an https URL into the registry: the version manifest is fetched
+  // first), "jsr_specifier" (a jsr: import: the file is loaded with embedded version info)
+  let route = op["route"].as_str().unwrap_or("plain");
+  let x: &'static str = if route == "plain" { PLAIN_X } else { REG_X };
+  let import = if route == "jsr_specifier" { "jsr:@a/b@1.0.0" } else { x };
+  let version_meta = if op["manifest_load_ok"].as_bool().unwrap_or(true) {
+    let entry = if op["manifest_covers_file"].as_bool().unwrap_or(true) {
+      let ck = if op["manifest_checksum_usable"].as_bool().unwrap_or(true) { format!("sha256-{}", "1".repeat(64)) } else { "md5-0".to_string() };
+      format!(r#""/mod.ts":{{"size":0,"checksum":"{ck}"}}"#)
+    } else { String::new() };
+    Some(format!(r#"{{"exports":{{".":"./mod.ts"}},"manifest":{{{entry}}}}}"#))
+  } else { None };
   let dep = DependencyDescriptor::Static(StaticDependencyDescriptor {
-    kind: StaticDependencyKind::Import, types_specifier: None, specifier: X.to_string(), specifier_range: PositionRange::zeroed(),
+    kind: StaticDependencyKind::Import, types_specifier: None, specifier: import.to_string(), specifier_range: PositionRange::zeroed(),
     is_side_effect: false, import_attributes: attrs });
   struct A(ModuleInfo);
   #[async_trait::async_trait(?Send)]
@@ -87,13 +118,14 @@ pub fn run_op(op: &Value) -> Value {
   }
   let analyzer = A(ModuleInfo { dependencies: vec![dep], ..Default::default() });
   let loader = ScriptedLoader {
+    x, version_meta,
     answers: op["answers"].as_array().unwrap().iter().map(|a| a.as_str().unwrap().to_string()).collect(),
     calls: RefCell::new(vec![]),
     max_redirects: op["max_redirects"].as_u64().unwrap() as usize,
   };
   let mut locker = HashMapLocker::default();
   if op["checksum_known"].as_bool().unwrap() {
-    locker.set_remote_checksum(&ModuleSpecifier::parse(X).unwrap(), LoaderChecksum::new("0".repeat(64)));
+    locker.set_remote_checksum(&ModuleSpecifier::parse(x).unwrap(), LoaderChecksum::new("0".repeat(64)));
   }
   let mut graph = ModuleGraph::new(GraphKind::All);
   futures::executor::block_on(graph.build(
@@ -104,25 +136,25 @@ pub fn run_op(op: &Value) -> Value {
       unstable_text_imports: true,
       module_analyzer: &analyzer,
       locker: Some(&mut locker),
+      executor: &InlineExecutor,
       ..Default::default()
     },
   ));
-  let xs = ModuleSpecifier::parse(X).unwrap();
-  let result = if graph.redirects.contains_key(&xs) {
-    "redirect".to_string()
-  } else {
-    match graph.try_get(&xs) {
-      Ok(Some(Module::External(_))) => "external".to_string(),
-      Ok(Some(_)) => "module".to_string(),
-      Ok(None) => "absent".to_string(),
-      Err(e) => {
-        let name = |d: String| d.split(|c: char| !c.is_alphanumeric()).next().unwrap().to_string();
-        match e.as_kind() {
-          ModuleErrorKind::Load { err, .. } => format!("err:Load:{}", name(format!("{:?}", err))),
-          k => format!("err:{}", name(format!("{:?}", k))),
-        }
-      }
+  let xs = ModuleSpecifier::parse(x).unwrap();
+  let err_name = |e: &ModuleError| {
+    let name = |d: String| d.split(|c: char| !c.is_alphanumeric()).next().unwrap().to_string();
+    match e.as_kind() {
+      ModuleErrorKind::Load { err, .. } => format!("err:Load:{}", name(format!("{:?}", err))),
+      k => format!("err:{}", name(format!("{:?}", k))),
     }
+  };
+  // an error is stored under the error's own specifier with a redirect from the requested one: look through redirects first
+  let result = match graph.try_get(&xs) {
+    Err(e) => err_name(e),
+    Ok(_) if graph.redirects.contains_key(&xs) => "redirect".to_string(),
+    Ok(Some(Module::External(_))) => "external".to_string(),
+    Ok(Some(_)) => "module".to_string(),
+    Ok(None) => "absent".to_string(),
   };
   let calls: Vec<Value> = loader.calls.borrow().iter().map(|c| json!({"cache_setting": c["cache_setting"], "checksum": c["checksum"]})).collect();
   json!({"calls": calls, "result": result})
